@@ -297,4 +297,22 @@ theorem Valid.append {a b : Bytes} (ha : Valid a) (hb : Valid b) : Valid (a ++ b
   obtain ⟨cb, rfl⟩ := hb
   exact ⟨ca ++ cb, (encode_append ca cb).symm⟩
 
+/-! ## link to Lean core's validity predicate -/
+
+theorem encode_eq_flatMap (cs : List Char) : encode cs = cs.flatMap String.utf8EncodeChar := by
+  induction cs with
+  | nil => rfl
+  | cons c cs ih => simp [encode_cons, encodeChar, ih]
+
+/-- `Valid` is Lean core's `ByteArray.IsValidUTF8` (the invariant of core's `String`) -/
+theorem valid_iff_core (l : Bytes) : Valid l ↔ ByteArray.IsValidUTF8 l.toByteArray := by
+  constructor
+  · rintro ⟨cs, rfl⟩
+    exact ⟨cs, by rw [List.utf8Encode, encode_eq_flatMap]⟩
+  · rintro ⟨cs, h⟩
+    refine ⟨cs, ?_⟩
+    rw [encode_eq_flatMap]
+    have := congrArg (fun b => b.data.toList) h
+    simpa [List.utf8Encode, List.toList_data_toByteArray] using this
+
 end Str
